@@ -57,6 +57,11 @@ def grid_ops():
                              # a key named more than once: whatever a plain Client sends for it, the wrappers send too
                              (1, [(b"a", b"1"), (b"b", b"2")], e, False, f), (7, False, [b"b", b"a", b"b"]), (8, True, [b"a", b"a"]),
                              (7, True, [b"a", b"zz", b"a", b"b"]), (10, False, [b"a", b"a"], False)])
+    # noreply LEFT OUT of the call (not passed as None): each method's own default decides, and it is the same in every class
+    from harness.props.C05 import OMIT
+    seqs.append([(0, 0, b"k", b"v", 0, OMIT, None), (9, b"k", OMIT), (9, b"zz", OMIT), (13, b"k", 5, OMIT), (10, False, [b"a", b"k"], OMIT), (0, 1, b"k", b"w", 0, OMIT, None),
+                 (0, 3, b"k", b"+", 0, OMIT, None), (1, [(b"a", b"1"), (b"b", b"2")], 0, OMIT, None), (11, b"n", 1, OMIT), (12, b"n", 1, OMIT),
+                 (2, b"k", b"v", b"1", 0, OMIT, None), (3, b"k", None)])
     # text values: what `encoding` (and only `encoding`) does to them, under every combination of the other options
     seqs.append([(0, 0, b"k", "\xe9t\xe9", 0, False, None), (3, b"k", None), (0, 0, b"k", "text", 0, False, None), (3, b"k", None),
                  (1, [(b"a", "\xe9"), (b"b", "plain")], 0, False, None), (7, False, [b"a", b"b"]), (0, 3, b"k", "\u20ac", 0, False, None), (2, b"k", "\xe9", b"1", 0, False, None)])
@@ -118,13 +123,15 @@ def run_stack(stack, c, ops):
     """-> (results, bytes sent (concatenated), settimeout/setsockopt/connect events without socket ids)"""
     srv = Server()
     ops = gens.native_only(ops) if c.get("serde") == 1 else ops
+    from harness.props.C05 import OMIT, apply_maybe_omitted
+    ap = apply_maybe_omitted if any(isinstance(x, str) and x == OMIT for o in ops for x in o) else None
     if stack == "Client":
-        r = cs.run_impl(c, ops, [], [], (), None, srv.feed)
+        r = cs.run_impl(c, ops, [], [], (), None, srv.feed, None, ap)
         results, world = r[0], r[6]
     elif stack == "PooledClient":
-        results, world = run_pooled_peer(c, ops, srv)
+        results, world = run_pooled_peer(c, ops, srv, ap)
     else:
-        r = cs.run_impl(c, ops, [], [], (), _mk(stack), srv.feed)
+        r = cs.run_impl(c, ops, [], [], (), _mk(stack), srv.feed, None, ap)
         results, world = r[0], r[6]
     sent = b"".join(t[1] for t in world.tags)
     # how each connection was set up (socket options, timeouts, connect), per socket: a wrapper may reconnect more often
@@ -136,7 +143,7 @@ def run_stack(stack, c, ops):
     return results, sent, setup, srv.log
 
 
-def run_pooled_peer(c, ops, srv):
+def run_pooled_peer(c, ops, srv, apply=None):
     from pymemcache.client.base import PooledClient
     cc = dict(cs.DEFAULT_CFG)
     cc.update(c)
@@ -147,7 +154,7 @@ def run_pooled_peer(c, ops, srv):
     for i, op in enumerate(ops):
         world.current_op = i
         try:
-            results.append(("o", cs.canon_value(cs.apply_pooled_op(p, op))))
+            results.append(("o", cs.canon_value((apply or cs.apply_pooled_op)(p, op))))
         except BaseException as e:  # noqa
             from harness import core
             results.append(("e", core.exn_name(e)))
